@@ -71,7 +71,7 @@ func spawn() (*proc, error) {
 		return nil, err
 	}
 	cmd := exec.Command(self, "-worker")
-	cmd.Env = append(os.Environ(), "GOMAXPROCS=2")
+	cmd.Env = append(os.Environ(), "GOMAXPROCS=1")
 	in, err := cmd.StdinPipe()
 	if err != nil {
 		return nil, err
@@ -224,7 +224,7 @@ func (c *coord) confirm(cs Case) (k waitKind, m msg, stderr string, p *proc) {
 		return wRes, msg{}, "", nil
 	}
 	_ = p.send(Job{One: &cs})
-	k, m, _ = p.wait(c.stallD + 40*time.Second)
+	k, m, _ = p.wait(wallFactor*c.stallD + 60*time.Second)
 	if k == wDied {
 		time.Sleep(50 * time.Millisecond)
 	}
@@ -268,7 +268,7 @@ func (c *coord) slot() {
 }
 
 func describe(j Job) string {
-	return fmt.Sprintf("%s/%s len=%d [%d,%d) cfg=%s", j.Part, j.Alpha, j.K, j.Lo, j.Hi, j.Cfg)
+	return fmt.Sprintf("%s/%s len=%d [%d,%d) cfg=%s/%d", j.Part, j.Alpha, j.K, j.Lo, j.Hi, j.Cfg, j.CfgOnly)
 }
 
 // split returns the parts of j before and after index idx.
@@ -277,11 +277,17 @@ func split(j Job, idx int64) []Job {
 	if idx > j.Lo {
 		a := j
 		a.Hi, a.Slow, a.Attempt = idx, false, 0
+		if len(j.Inputs) > 0 {
+			a.Inputs = j.Inputs[:idx-j.Lo]
+		}
 		out = append(out, a)
 	}
 	if idx+1 < j.Hi {
 		b := j
 		b.Lo, b.Slow, b.Attempt = idx+1, false, 0
+		if len(j.Inputs) > 0 {
+			b.Inputs = j.Inputs[idx+1-j.Lo:]
+		}
 		out = append(out, b)
 	}
 	return out
@@ -307,7 +313,7 @@ func (c *coord) process(pp **proc, j Job) (requeue []Job) {
 		j.Attempt++
 		return []Job{j}
 	}
-	k, m, lastAt := p.wait(c.stallD + 60*time.Second)
+	k, m, lastAt := p.wait(wallFactor*c.stallD + 60*time.Second)
 	switch k {
 	case wRes:
 		c.mu.Lock()
@@ -329,10 +335,11 @@ func (c *coord) process(pp **proc, j Job) (requeue []Job) {
 			return nil
 		}
 		cs := *m.Case
+		fmt.Fprintf(os.Stderr, "c04: watchdog (%s) on %s %s/%s vars=%v input %s - re-running alone\n", m.Why, cs.Part, cs.Entry, cs.Mods, cs.Vars, cs.Text)
 		k2, m2, stderr2, p2 := c.confirm(cs)
 		switch k2 {
 		case wStall, wTimeout:
-			why := fmt.Sprintf("did not return within %v", c.stallD)
+			why := fmt.Sprintf("did not return within %v of CPU time", c.stallD)
 			if m.Why == "mem" || (k2 == wStall && m2.Why == "mem") {
 				why = fmt.Sprintf("did not return before allocating more than %d MiB (or within %v)", memLimit>>20, c.stallD)
 			}
@@ -362,6 +369,7 @@ func (c *coord) process(pp **proc, j Job) (requeue []Job) {
 		stderr := p.stderr.String()
 		p.kill()
 		*pp = nil
+		fmt.Fprintf(os.Stderr, "c04: worker died on job %s (slow=%v): %s\n", describe(j), j.Slow, firstLine(fatalRe.FindString(stderr)))
 		if !j.Slow {
 			j.Slow = true
 			j.Attempt++
@@ -409,7 +417,9 @@ func (c *coord) buildJobs(th bool) {
 	c.push(Job{Part: "selfcheck", Cfg: "full", Thorough: th})
 	// limits first: single long jobs
 	for i := range limitSpecs() {
-		c.push(Job{Part: "limits", Lo: int64(i), Hi: int64(i + 1), Cfg: "full", Thorough: th})
+		for ci := range fullCfgs {
+			c.push(Job{Part: "limits", Lo: int64(i), Hi: int64(i + 1), Cfg: "full", CfgOnly: ci + 1, Thorough: th})
+		}
 	}
 	chunkFor := func(cfgName string) int64 {
 		if cfgName == "two" {
@@ -417,16 +427,24 @@ func (c *coord) buildJobs(th bool) {
 		}
 		return 2048
 	}
-	chunked(c, Job{Part: "edit", Cfg: "full", Thorough: th}, int64(len(edits())), 512)
-	for k := b.TokFullLen; k >= 1; k-- {
-		cn := "two"
-		if k <= b.TokFullCfg {
-			cn = "full"
+	ed := edits()
+	for lo := 0; lo < len(ed); lo += 512 {
+		hi := lo + 512
+		if hi > len(ed) {
+			hi = len(ed)
 		}
-		chunked(c, Job{Part: "tok", Alpha: "full", K: k, Cfg: cn, Thorough: th}, ipow(len(tokFull), k), chunkFor(cn))
+		j := Job{Part: "edit", Cfg: "full", Thorough: th, Lo: int64(lo), Hi: int64(hi)}
+		for _, s := range ed[lo:hi] {
+			j.Inputs = append(j.Inputs, []byte(s))
+		}
+		c.push(j)
 	}
+	chunked(c, Job{Part: "tok", Alpha: b.TokLongAlph, K: b.TokLongLen, Cfg: "two", Thorough: th}, ipow(len(tokAlphabet(b.TokLongAlph)), b.TokLongLen), chunkFor("two"))
 	if b.TokSubLen > 0 {
 		chunked(c, Job{Part: "tok", Alpha: "sub", K: b.TokSubLen, Cfg: "two", Thorough: th}, ipow(len(tokSub), b.TokSubLen), chunkFor("two"))
+	}
+	for k := b.TokFullLen; k >= 1; k-- {
+		chunked(c, Job{Part: "tok", Alpha: "full", K: k, Cfg: "full", Thorough: th}, ipow(len(tokFull), k), chunkFor("full"))
 	}
 	for k := b.B256Len; k >= 0; k-- {
 		cn := "two"
@@ -451,7 +469,7 @@ func runOne(cs Case, stallD time.Duration) {
 		return
 	}
 	_ = p.send(Job{One: &cs})
-	k, m, _ := p.wait(stallD + 40*time.Second)
+	k, m, _ := p.wait(wallFactor*stallD + 60*time.Second)
 	if k == wDied {
 		time.Sleep(50 * time.Millisecond)
 	}
@@ -464,7 +482,7 @@ func runOne(cs Case, stallD time.Duration) {
 			}
 		}
 	case wStall:
-		fmt.Printf("  observed: did not return (%s watchdog, limit %v / %d MiB heap)\n  FAIL hang/%s\n", m.Why, stallD, memLimit>>20, cs.Entry)
+		fmt.Printf("  observed: did not return (%s watchdog, limit %v CPU / %d MiB heap)\n  FAIL hang/%s\n", m.Why, stallD, memLimit>>20, cs.Entry)
 	case wTimeout:
 		fmt.Printf("  observed: did not return, worker unresponsive\n  FAIL hang/%s\n", cs.Entry)
 	case wDied:
@@ -570,7 +588,9 @@ func main() {
 
 	b := tierBounds(th)
 	r.Set("token_alphabet", tokFull)
-	r.Set("token_sub_alphabet", tokSub)
+	r.Set("token_mid_alphabet_len4_quick", tokMid)
+	r.Set("token_core_alphabet_len4_thorough", tokCore)
+	r.Set("token_sub_alphabet_len5_thorough", tokSub)
 	r.Set("byte_alphabet_16", fmt.Sprintf("%q", bytes16))
 	r.Set("bounds", fmt.Sprintf("%+v", b))
 	r.Set("corpus_valid_programs", len(corpusValid))
@@ -579,13 +599,13 @@ func main() {
 	r.Set("limit_programs", limitSpecs())
 	r.Set("configurations_full", fmt.Sprintf("%+v", fullCfgs))
 	r.Set("configurations_longest_lengths", fmt.Sprintf("%+v", twoCfgs))
-	r.Set("watchdog", fmt.Sprintf("%v per invocation or %d MiB heap, confirmed alone in a fresh process", c.stallD, memLimit>>20))
+	r.Set("watchdog", fmt.Sprintf("%v of worker CPU time (or %v wall clock, or %d MiB heap) per invocation, confirmed alone in a fresh process", c.stallD, wallFactor*c.stallD, memLimit>>20))
 	r.Set("worker_processes", workers)
 	r.Set("confirmed_hangs", c.hangs)
 	r.Set("confirmed_process_deaths", c.fatals)
 	r.Assume("positions: lines are separated by '\\n'; a line that would start at end of input does not exist (EOF after a trailing newline is reported on the last line) and columns are 1-based byte counts - the conventions documented in parser/source_file.go (AddLine: offset < Size; Column: 'byte count')")
 	r.Assume("an Importable returning neither an Object nor []byte (nil, a Go string) violates the documented contract of tengo.Importable; the resulting explicit panic 'invalid import value type' is embedder misuse and not flagged; Importables returning any Object (e.g. *Array, Undefined) or any []byte are within the contract")
-	r.Assume("termination is decided by a 20 s watchdog on inputs that take microseconds; a suspected hang is re-run alone in a fresh process before it is reported")
+	r.Assume("termination is decided by a watchdog of 20 s of CPU time (180 s wall clock) on invocations that take microseconds to a second; a suspected hang is re-run alone in a fresh process before it is reported")
 	r.Assume("compiled scripts are never run: execution is the subject of other properties")
 	r.Finish(report.Coverage{
 		States:      t.Distinct,
